@@ -63,6 +63,9 @@ fn c02_grid(tier: Tier) -> Vec<Program> {
                             s.chunks = ch.clone();
                             s.declare = declare;
                             s.flush = n % 3 == 0 && s.streamed();
+                            if s.streamed() {
+                                s.vectored = [0u16, 0, 2, 0, 1025, 0, 3, 0][n % 8];
+                            }
                             out.push(Program { keys: keys.clone(), blobs: blobs.clone(), steps: vec![Step { op: Op::Write(s), fl }] });
                         }
                     }
@@ -235,6 +238,7 @@ fn c08_grid(tier: Tier) -> Vec<Program> {
         IntegDecl::OtherAlgoCorrect,
         IntegDecl::MultiWithCorrect,
         IntegDecl::MultiAllWrong,
+        IntegDecl::DigestOfOtherBlob,
     ];
     let keys = vec!["k".to_string(), "other".to_string()];
     let mut out = Vec::new();
@@ -254,6 +258,13 @@ fn c08_grid(tier: Tier) -> Vec<Program> {
                             let mut steps = Vec::new();
                             // an unrelated live key so that "nothing else changes" is observable
                             steps.push(Step { op: Op::Write(WriteSpec::simple(Some(1), 1)), fl: Fl::Sync });
+                            if integ == IntegDecl::DigestOfOtherBlob {
+                                // the other value is stored under the writer's algorithm: its digest is an existing address
+                                let mut o = WriteSpec::simple(None, 1);
+                                o.entry = WEntry::OneShotAlgo;
+                                o.algo = algo;
+                                steps.push(Step { op: Op::Write(o), fl: Fl::Sync });
+                            }
                             if prior >= 1 {
                                 steps.push(Step { op: Op::Write(WriteSpec::simple(Some(0), 1)), fl: if n % 2 == 0 { Fl::Sync } else { Fl::Async } });
                             }
@@ -270,6 +281,7 @@ fn c08_grid(tier: Tier) -> Vec<Program> {
                                 1 => vec![1, 0, 2, len / 2],
                                 _ => vec![len / 2 + 1, len / 3, 1],
                             };
+                            s.vectored = [0u16, 0, 0, 2, 0, 0, 1025][n % 7];
                             steps.push(Step { op: Op::Write(s), fl });
                             out.push(Program { keys: keys.clone(), blobs, steps });
                         }
